@@ -30,7 +30,7 @@ func vrtCmdLayouts() []string {
 	return []string{"1s:2s", "1s:2s,2s:4s"}
 }
 
-// vrtCmdLayoutsWide: the cheaper command harnesses (diff, sum, view, view-raw, remote reads) add
+// vrtCmdLayoutsWide: the cheaper command harnesses (view, view-raw, remote reads) add
 // a 3-slot ring and a 5-second step in the thorough tier.
 func vrtCmdLayoutsWide() []string {
 	if vrt.Tier() == 1 {
